@@ -158,7 +158,8 @@ func ReadUint16Slice(r Reader, c []uint16) (n int64, err error) {
 
 	// Discard what was peeked
 	var inc int
-	if inc, err = r.Discard(len(slice)); err != nil {
+	// Only the decoded elements: a trailing partial element stays in the reader
+	if inc, err = r.Discard(buffered << 1); err != nil {
 		return n + int64(inc), err
 	}
 
@@ -238,7 +239,8 @@ func ReadUint32Slice(r Reader, c []uint32) (n int64, err error) {
 
 	// Discard what was peeked
 	var inc int
-	if inc, err = r.Discard(len(slice)); err != nil {
+	// Only the decoded elements: a trailing partial element stays in the reader
+	if inc, err = r.Discard(buffered << 2); err != nil {
 		return n + int64(inc), err
 	}
 
@@ -318,7 +320,8 @@ func ReadUint64Slice(r Reader, c []uint64) (n int64, err error) {
 
 	// Discard what was peeked
 	var inc int
-	if inc, err = r.Discard(len(slice)); err != nil {
+	// Only the decoded elements: a trailing partial element stays in the reader
+	if inc, err = r.Discard(buffered << 3); err != nil {
 		return n + int64(inc), err
 	}
 
